@@ -103,6 +103,38 @@ func InterpTestPrograms() []string {
 	return out
 }
 
+// ReadRegress reads the pinned regression corpus corpus/<id>/regress.txt (programs separated
+// by lines starting with "#===="): minimised inputs of earlier catches, run first on every
+// seed and tier through the same oracles as the generated inputs.
+func ReadRegress(id string) []string {
+	var data []byte
+	for _, p := range []string{filepath.Join("corpus", id, "regress.txt"), filepath.Join("/verif/corpus", id, "regress.txt")} {
+		if b, err := os.ReadFile(p); err == nil {
+			data = b
+			break
+		}
+	}
+	var out []string
+	var cur []string
+	started := false
+	flush := func() {
+		if started && len(cur) > 0 {
+			out = append(out, strings.Join(cur, "\n")+"\n")
+		}
+		cur = nil
+	}
+	for _, l := range strings.Split(strings.TrimRight(string(data), "\n"), "\n") {
+		if strings.HasPrefix(l, "#====") {
+			flush()
+			started = true
+			continue
+		}
+		cur = append(cur, l)
+	}
+	flush()
+	return out
+}
+
 // ---------------------------------------------------------------- safety
 
 var allowedBuiltins = map[string]bool{
